@@ -306,7 +306,7 @@ static void eval_u64(uint64_t index, void *ctx) {
     uint64_t a = B64.v[index / B64.n], b = B64.v[index % B64.n];
     pair_u64(a, b);
     mix_pair(a, b, false);
-    if ((a == 0x100000001ull && b == 0xffffffffull) || (a == 0x100000000ull && b == 0x100000000ull)) {
+    if (a == 0x100000000ull && b == 0x100000000ull) {
         uint64_t r = 0;
         int rc = tabs[1]->chk64[C16_MUL](a, b, &r);
         v_sample("arith_u64:%" PRIu64 " mul_u64 a=0x%" PRIx64 " b=0x%" PRIx64 " exact=%s asm: rc=%d sat=0x%" PRIx64
@@ -321,11 +321,6 @@ static void eval_u32(uint64_t index, void *ctx) {
     uint64_t a = B32.v[index / B32.n], b = B32.v[index % B32.n];
     pair_u32(a, b);
     mix_pair(a, b, true);
-    if (a == 0x10001 && b == 0xffff)
-        v_sample("arith_u32:%" PRIu64 " mul_u32 a=0x10001 b=0xffff exact=0xffffffff asm sat=0x%" PRIx32
-                 " ; add_u32 exact=%s builtin sat=0x%" PRIx32,
-                 index, tabs[1]->sat32[C16_MUL](0x10001, 0xffff), hex128(exact_of(C16_ADD, a, b)),
-                 tabs[0]->sat32[C16_ADD](0x10001, 0xffff));
 }
 
 /* shipped library: aws_add_size_checked_varargs (source/math.c) is a fold of aws_add_size_checked */
@@ -446,10 +441,6 @@ static void eval_unary(uint64_t index, void *ctx) {
     unary_32((uint32_t)x);
     unary_32((uint32_t)(x >> 32));
     if (index >= B64.n) unary_64(x << 32);
-    if (x == ((uint64_t)1 << 63) + 1)
-        v_sample("unary:%" PRIu64 " x=2^63+1: round_up -> rc=%d (overflow), clz_i64=%zu ctz_u64=%zu (fallback)", index,
-                 tabs[2]->round_up_to_power_of_two((size_t)x, &(size_t){0}), tabs[2]->clz_i64((int64_t)x),
-                 tabs[2]->ctz_u64(x));
 }
 
 /* ------------------------------------------------------------------ min / max ----------------------------- */
@@ -601,7 +592,7 @@ static uint64_t conv_ticks(uint64_t k, uint64_t oldf, uint64_t newf, bool *is_ex
     return (uint64_t)c;
 }
 
-static void conv_case(uint64_t index, const char *fname, bool use_units, uint64_t ticks, uint64_t oldf, uint64_t newf) {
+static void conv_case(uint64_t index, const char *fname, bool use_units, uint64_t ticks, uint64_t oldf, uint64_t newf, uint64_t k) {
     const u128 ex = (u128)ticks * newf / oldf;
     const uint64_t want = ex > UINT64_MAX ? UINT64_MAX : (uint64_t)ex;
     const bool rem_defined = oldf > newf && oldf % newf == 0;
@@ -656,11 +647,11 @@ static void conv_case(uint64_t index, const char *fname, bool use_units, uint64_
     if (rem_defined && want_rem) V_COUNT("conv_remainder_nonzero", 1);
     if (rem_defined && !want_rem) V_COUNT("conv_remainder_zero_defined", 1);
     if (near || (rem_defined && want_rem)) V_COUNT("nontrivial", 1);
-    if (use_units && oldf == 1 && newf == 1000000000 && ticks == 18446744074ull)
+    if (use_units && oldf == 1 && newf == 1000000000 && ticks == 18446744074ull && k == B64.n + 2)
         v_sample("%s:%" PRIu64 " aws_timestamp_convert(%" PRIu64 " s -> ns): floor=%s -> %" PRIu64 " (saturated); %" PRIu64
                  " s -> %" PRIu64, "convert_units", index, ticks, hex128((i128)ex), tabs[1]->convert_units(ticks, oldf, newf, NULL),
                  ticks - 1, tabs[1]->convert_units(ticks - 1, oldf, newf, NULL));
-    if (use_units && oldf == 1000000000 && newf == 1000 && ticks == UINT64_MAX) {
+    if (use_units && oldf == 1000000000 && newf == 1000 && ticks == UINT64_MAX && k < B64.n) {
         uint64_t rr = 0;
         uint64_t gg = tabs[2]->convert_units(ticks, oldf, newf, &rr);
         v_sample("convert_units:%" PRIu64 " aws_timestamp_convert(UINT64_MAX ns -> ms) = %" PRIu64 " remainder %" PRIu64
@@ -676,7 +667,7 @@ static void eval_conv_units(uint64_t index, void *ctx) {
     unsigned to = bee_digit(&i, 4), from = bee_digit(&i, 4);
     bool extra;
     uint64_t ticks = conv_ticks(i, units[from], units[to], &extra);
-    conv_case(index, "timestamp_convert", true, ticks, units[from], units[to]);
+    conv_case(index, "timestamp_convert", true, ticks, units[from], units[to], i);
 }
 static uint64_t total_conv_freq(void) { return (uint64_t)(B64.n + CONV_EXTRA) * nfreqs * nfreqs; }
 static void eval_conv_freq(uint64_t index, void *ctx) {
@@ -686,7 +677,7 @@ static void eval_conv_freq(uint64_t index, void *ctx) {
     unsigned nw = bee_digit(&i, nfreqs), od = bee_digit(&i, nfreqs);
     bool extra;
     uint64_t ticks = conv_ticks(i, freqs[od], freqs[nw], &extra);
-    conv_case(index, "timestamp_convert_u64", false, ticks, freqs[od], freqs[nw]);
+    conv_case(index, "timestamp_convert_u64", false, ticks, freqs[od], freqs[nw], i);
 }
 
 /* ------------------------------------------------------------------ main ---------------------------------- */
